@@ -14,11 +14,26 @@ GEOMETRY = dict(
 )
 
 MAKEPATH = dict(
-    src="cola/libavoid/makepath.cpp",
     ns="AdaptaVerif.Gen.Makepath",
     out="lean/AdaptaVerif/Gen/Makepath.lean",
-    functions=["dimDirection", "orthogonalDirectionsCount", "orthogonalDirection", "dirRight", "dirLeft", "dirReverse", "bends"],
-    auto_constants={"CostDirectionN": "Nat", "CostDirectionE": "Nat", "CostDirectionS": "Nat", "CostDirectionW": "Nat"},
+    imports=["AdaptaVerif.Model.EstimateKeys"],
+    opens=["AdaptaVerif.Model.EstimateKeys"],
+    parts=[
+        dict(src="cola/libavoid/geometry.cpp", functions=["manhattanDist"]),
+        dict(src="cola/libavoid/makepath.cpp",
+             functions=["dimDirection", "orthogonalDirectionsCount", "orthogonalDirection", "dirRight", "dirLeft", "dirReverse", "bends",
+                        "estimatedCostSpecific"],
+             auto_constants={"CostDirectionN": "Nat", "CostDirectionE": "Nat", "CostDirectionS": "Nat", "CostDirectionW": "Nat",
+                             "ConnType_PolyLine": "Nat"},
+             # estimatedCostSpecific(lineRef, last, curr, costTar, costTarDirs): what it reads of the connector and of the
+             # cost target are fields of small records; `last` may be null; the Euclidean distance (sqrt) stays uninterpreted
+             types={"ConnRef": "ConnK", "VertInf": "Pt"}, ptr_vals=["ConnRef", "VertInf"], opt_ptrs=["Point"],
+             paths={"lineRef.routingType()": ("lineRef.connType", "Nat"),
+                    "lineRef.router().routingParameter(segmentPenalty)": ("lineRef.segmentPenalty", "Rat"),
+                    "costTar.point": ("costTar", "Pt")},
+             opaque_calls={"euclideanDist": ("euclid", "Rat")},
+             extra_params={"estimatedCostSpecific": [("euclid", "Pt → Pt → Rat")]}),
+    ],
 )
 
 _SD = ["east", "south", "west", "north", "right", "down", "left", "up"]
